@@ -78,6 +78,7 @@ pub fn base_strategy() -> BoxedStrategy<c02::Case> {
             target_dir_opt: false,
             glob: GlobMode::Off,
             nolinks,
+            extra: 0,
         })
         .boxed()
 }
